@@ -73,6 +73,11 @@ def cases(tier, seed):
     A = rs("j/a", [["string", "s"], ["varint", "n"]], ["'va'", "1"], _source="'origin-a'", _classification="'cls-a'")
     A2 = rs("j/a", [["varint", "n"], ["bytes", "b"]], ["2", "b'zz'"])
     B = rs("j/b", [["datetime", "ts"], ["string[]", "l"]], ["dt(2020,1,1,tz=UTC)", "['x']"])
+    for gen in ([["hot", nn, form] for nn in ((140, 1030) if tier != "thorough" else (140, 300, 1030, 4100)) for form in ("plain",)]
+                + [["manytypes", 260, fl] for fl in ("names", "fields", "both")]
+                + [["bigfirst", sz, form] for sz in (65536 - 64, 65536, 100000) for form in ("plain",)]
+                + [["periodic", pat, 1030] for pat in (["A", "A2"], ["K1", "K2"], ["U1", "U2"], ["AL1", "AL2"])]):
+        yield {"kind": "long", "t": "long:" + gen[0], "gen": gen, "records": []}
     N1 = rs("j/n", [["string", "s"], ["varint", "n"], ["float", "f"], ["boolean", "b"]], ["None", "None", "None", "None"])
     N2 = rs("j/n", [["string", "s"], ["varint", "n"], ["float", "f"], ["boolean", "b"]], ["'x'", "2**70", "0.25", "True"], _source="'\\udc80src'")
     N3 = rs("j/n", [["string", "s"], ["varint", "n"], ["float", "f"], ["boolean", "b"]], ["'5'", "5", "5.0", "False"])
@@ -287,10 +292,19 @@ def run_case(case):
     from flow.record import GroupedRecord, RecordReader
 
     h = jhash(case)
+    if case.get("gen"):
+        from mc import streamspace
+
+        # long histories (mc.streamspace generators); JSON lines has no grouped encoding: grouped specs are left out
+        case = dict(case, records=[sp for sp in streamspace.expand(case) if "group" not in sp and not sp.get("xfail") and "windows_path" not in repr(sp)
+                                   and not any(f[0].startswith("record") for f in sp["fields"])])  # (nested records are not among the types the statement lists: C03's JSON leg)  # (JSON output keeps POSIX paths only, by the statement)
     try:
         records = [recs.build_record(r) for r in case["records"]]
     except Exception as e:  # noqa: BLE001
         return {"ev": 1, "h": h, "nt": False, "out": "rejected:" + type(e).__name__}
+    if case.get("gen"):
+        case = {k: v for k, v in case.items() if k != "records"}  # (reports carry the generator literal, not thousands of specs)
+        case["records"] = []
     XFAIL[0] = tuple(i for i, r in enumerate(case["records"]) if r.get("xfail"))
     records_all = records
     records = [r for i, r in enumerate(records_all) if i not in XFAIL[0]]
@@ -301,7 +315,8 @@ def run_case(case):
     n = 0
     tkey = case["t"] if case["kind"] == "single" else case["kind"]
     channels = ["packer", "adapter", "rw.json", "rw.jsonl", "uri", "uri-upper", "uri-mixed", "uri-digit", "stdout-close", "stdout-with"]  # (a .gz JSON target is a C11 matter: the text writer cannot open it)
-    for descriptors, indent, ch in itertools.product((True, False), (None, 0, 2), channels):
+    configs = itertools.product((True, False), (None, 0, 2), channels) if not case.get("gen") else [(True, None, "packer"), (True, None, "adapter"), (True, None, "rw.json"), (True, None, "uri")]
+    for descriptors, indent, ch in configs:
         n += 1
         cfg = "desc=%s,indent=%s" % (descriptors, indent)
         path = None
